@@ -27,6 +27,8 @@ SERVERS = {
     "ping_flood": [(100, wire.sframe(9, b"k")) for i in range(25)],
     "data_eof": [(0, wire.sframe(1, b"last")), (0, "eof")],
     "close_empty_eof": [(0, wire.sframe(8, b"")), (0, "eof")],
+    "pings_data_close": [(50, wire.sframe(9, b"a")), (50, wire.sframe(1, b"t")), (50, wire.sframe(9, b"")), (50, wire.sframe(2, b"\x00", 0)),
+                         (50, wire.sframe(9, b"in")), (50, wire.sframe(0, b"\x01", 1)), (50, wire.sframe(8, b"\x03\xe8")), (0, "eof")],
 }
 
 CALLS = {
